@@ -421,7 +421,7 @@ pub fn c17_owned_reserve_items_vec_form() {
     sym::forget((t, u));
 }
 
-// @h prop=C17 tier=quick kind=proof inst="Vec<u8> as region under OptionRegion and ResultRegion: reserve_items through the wrappers' filtering iterators (no useful size hint)" bounds="OptionRegion<Vec<u8>>: Some, None, Some, Some; ResultRegion<Vec<u8>, Vec<u8>>: Ok, Err, Ok, Ok, Err (symbolic elements); empty and populated targets" desc="capacities constant while exactly the announced items are pushed: the announced items are counted, not estimated from a size hint"
+// @h prop=C17 tier=quick kind=proof inst="Vec<u8> as region under OptionRegion and ResultRegion: reserve_items through the wrappers' filtering iterators (no useful size hint)" bounds="OptionRegion<Vec<u8>>: Some, None, Some, Some by reference and None, Some, None, Some, Some by value; ResultRegion<Vec<u8>, Vec<u8>>: Ok, Err, Ok, Ok, Err by reference and by value (symbolic elements); empty and populated targets" desc="capacities constant while exactly the announced items are pushed: the announced items are counted, not estimated from a size hint"
 #[cfg_attr(kani, kani::proof, kani::unwind(10))]
 pub fn c17_reserve_items_vec_under_wrappers() {
     let e = sym::bytes::<5>();
@@ -441,6 +441,16 @@ pub fn c17_reserve_items_vec_under_wrappers() {
         let _ = t.push(v);
         assert!(same_caps(before, caps(&t)), "C17: CAPACITY-CHANGED while pushing exactly the items announced to a populated OptionRegion over a vector");
     }
+    // the OWNED-item form of the announcement (a different ReserveItems impl), with a None before the Some items
+    let owned = [None, Some(e[3]), None, Some(e[4]), Some(e[0])];
+    let mut t2 = O::default();
+    t2.reserve_items(owned.iter().copied());
+    let before = caps(&t2);
+    for v in owned.iter() {
+        let _ = t2.push(*v);
+        assert!(same_caps(before, caps(&t2)), "C17: CAPACITY-CHANGED while pushing exactly the owned items announced to an OptionRegion over a vector");
+    }
+    sym::forget(t2);
     type R = ResultRegion<Vec<u8>, Vec<u8>>;
     let items: [Result<u8, u8>; 5] = [Ok(e[0]), Err(e[1]), Ok(e[2]), Ok(e[3]), Err(e[4])];
     let mut r = R::default();
@@ -450,6 +460,13 @@ pub fn c17_reserve_items_vec_under_wrappers() {
         let _ = r.push(v);
         assert!(same_caps(before, caps(&r)), "C17: CAPACITY-CHANGED while pushing exactly the items announced to a ResultRegion over vectors");
     }
+    let mut r2 = R::default();
+    r2.reserve_items(items.iter().copied());
+    let before = caps(&r2);
+    for v in items.iter() {
+        let _ = r2.push(*v);
+        assert!(same_caps(before, caps(&r2)), "C17: CAPACITY-CHANGED while pushing exactly the owned items announced to a ResultRegion over vectors");
+    }
     cover!(true, "end reached");
-    sym::forget((t, r));
+    sym::forget((t, r, r2));
 }
